@@ -38,6 +38,7 @@ type runLine struct {
 	Stats  json.RawMessage `json:"stats"`
 	Digest uint64          `json:"digest"`
 	Corpus []CorpusItem    `json:"corpus"`
+	Sched  []string        `json:"sched"`
 }
 
 type summary struct {
@@ -70,7 +71,8 @@ type found struct {
 	Viol   Violation
 	Tape   []uint32
 	Sample []string
-	Race   string // race detector report, if that is what fired
+	Sched  []string // schedule / fault decisions of the (replayed) run
+	Race   string   // race detector report, if that is what fired
 }
 
 type chunkResult struct {
@@ -85,13 +87,17 @@ const raceExit = 66
 
 // runChunk executes one worker process over [from,to).
 func runChunk(bin, prop string, seed uint64, from, to int, order string, extra ...string) chunkResult {
+	return runChunkEnv(bin, prop, seed, from, to, order, gomaxprocs, extra...)
+}
+
+func runChunkEnv(bin, prop string, seed uint64, from, to int, order string, gmp string, extra ...string) chunkResult {
 	cr := chunkResult{from: from, to: to}
 	args := []string{"-prop", prop, "-seed", strconv.FormatUint(seed, 10), "-from", strconv.Itoa(from), "-to", strconv.Itoa(to),
 		"-order", order, "-tier", tierName}
 	args = append(args, extra...)
 	args = append(args, extraArgs...)
 	cmd := exec.Command(bin, args...)
-	cmd.Env = append(os.Environ(), "GOMAXPROCS="+gomaxprocs, "GORACE=halt_on_error=1 exitcode=66 atexit_sleep_ms=0 history_size=3")
+	cmd.Env = append(os.Environ(), "GOMAXPROCS="+gmp, "GORACE=halt_on_error=1 exitcode=66 atexit_sleep_ms=0 history_size=3")
 	var stderr bytes.Buffer
 	cmd.Stderr = &stderr
 	stdout, err := cmd.StdoutPipe()
@@ -159,7 +165,7 @@ func runChunk(bin, prop string, seed uint64, from, to int, order string, extra .
 				continue
 			}
 			if rl.Viol != nil {
-				cr.viol = &found{I: rl.I, Seed: rl.Seed, Viol: *rl.Viol, Tape: rl.Tape, Sample: rl.Sample}
+				cr.viol = &found{I: rl.I, Seed: rl.Seed, Viol: *rl.Viol, Tape: rl.Tape, Sample: rl.Sample, Sched: rl.Sched}
 			}
 			if head.T == "replayed" {
 				cr.sum = &summary{Runs: 1, Next: to}
